@@ -139,6 +139,14 @@ def install():
     return torch
 
 
+def _guarded_range(*args):
+    import builtins
+    from ..proxies import Unsupported
+    if any(hasattr(a, '_term') for a in args):
+        raise Unsupported('range() over a symbolic integer outside a declared loop')
+    return builtins.range(*args)
+
+
 def import_pfhedge(repo=None):
     """Import the real package from `repo` against the shim, with the names its modules bind from
     `math` (`ceil`, `floor`, `math.exp` ...) rebound to proxies-aware versions."""
@@ -167,4 +175,7 @@ def import_pfhedge(repo=None):
         from ..proxies import symint, symfloat
         d.setdefault('int', symint)
         d.setdefault('float', symfloat)
+        # builtin range() reads the C-level value of an int subclass (0 for a symbolic integer) instead of calling __index__: a loop or
+        # comprehension over range(<symbolic>) outside a declared (cut) loop would silently run zero times.  Refuse instead.
+        d.setdefault('range', _guarded_range)
     return pf
